@@ -79,8 +79,19 @@ func (lv *LeafVariants) canDelete() bool {
 		return true
 	}
 
-	// if we have runnig and only running we should not delete
-	if len(lv.les) == 1 && lv.les[0].Owner() == RunningIntentName {
+	// if we have runnig and only running we should not delete. The schema default that is loaded
+	// next to it does not change that: no intent of the transaction decides about this leaf.
+	hasRunning, onlyRunningOrDefault := false, true
+	for _, l := range lv.les {
+		switch l.Owner() {
+		case RunningIntentName:
+			hasRunning = true
+		case DefaultsIntentName:
+		default:
+			onlyRunningOrDefault = false
+		}
+	}
+	if hasRunning && onlyRunningOrDefault {
 		return false
 	}
 
